@@ -195,6 +195,12 @@ def _remove_node_and_replace_values(
                     # if new_value is not graph output, we just
                     # update it to use old_value name.
                     new_value.name = graph_output.name
+                    # new_value becomes a graph output: keep the type and shape the
+                    # replaced output declared when new_value has none of its own.
+                    if new_value.type is None:
+                        new_value.type = graph_output.type
+                    if new_value.shape is None:
+                        new_value.shape = graph_output.shape
                     graph.outputs[idx] = new_value
                     replaced[graph_output] = new_value
 
